@@ -109,6 +109,8 @@ type Scenario struct {
 	LogLength  int        `json:"log_length,omitempty"`
 	ToRun      []string   `json:"to_run,omitempty"`
 	NoDeps     bool       `json:"no_deps,omitempty"`
+	// PreHolds are armed before Run() starts.
+	PreHolds   []Step     `json:"pre_holds,omitempty"`
 	Steps      []Step     `json:"steps"`
 	TimeUnitMs int        `json:"time_unit_ms,omitempty"`
 	// FinishCode is the exit code used for commands still alive in the end game.
